@@ -422,6 +422,8 @@ func c06(c *Ctx) (*report.Result, error) {
 	checkObserverIndexGuard(c, res, "O6.11")
 	res.RuleDoc["O6.14"] = "the relays can receive what the clusters send: MakeDialOptions hands grpc.WithDefaultCallOptions a grpc.MaxCallRecvMsgSize of at least 128 MiB (Temporal's internode maximum) - with gRPC's 4 MiB default a larger replication batch fails the relay's Recv and the stream is ended as if the source had closed it"
 	checkClientRecvLimit(c, res, "O6.14")
+	res.RuleDoc["O6.15"] = "the translating stream wrapper never withholds a message: every path of streamTranslator.SendMsg / RecvMsg reaches the underlying ServerStream's method (a translator's error is logged, the message is relayed as it is)"
+	checkStreamTranslatorForwards(c, res, "O6.15")
 	res.RuleDoc["O6.12"] = "the forwarder's worker bookkeeping is consistent (same analysis as O8.15): Add equals the number of goroutines started with the WaitGroup, each calls Done from an entry-block defer, none runs synchronously and Run does not return before Wait - otherwise the handler never returns or returns under running relays"
 	checkWaitGroups(c, res, "O6.12", []string{"proxy/admin_stream_transfer.go"}, 2)
 	return res, nil
